@@ -200,5 +200,7 @@ def run(ctx):
     clamp(ctx, crate)
     ctx.not_decided("containment of the position in the returned cell; i, j < nside (float rounding of sin/cos/products); behaviour 1-2 ulp around cell borders")
     ctx.assume("C18 (checked separately): ZOrderCurve::ij2h is the bit interleave")
+    from rules import cancellation
+    cancellation.check(ctx, ctx.crate("rel"), ['nested::hash', 'nested::Layer::hash', 'nested::Layer::hash_v2', 'nested::hash_with_dxdy', 'nested::Layer::hash_with_dxdy'], floor=17)
     from rules import controls
     controls.guard_controls(ctx)
